@@ -674,8 +674,6 @@ def _squeeze_by_scaling(bias, heights, monotonicity, output_min, output_max,
     Projected bias and heights.
   """
   if monotonicity == -1:
-    if output_min_constraints == BoundConstraintsType.NONE:
-      return bias, heights
     # Reduce computation of projection of decreasing function to computation of
     # projection of increasing function by multiplying everything by -1 and
     # swapping maximums and minimums.
@@ -688,8 +686,13 @@ def _squeeze_by_scaling(bias, heights, monotonicity, output_min, output_max,
         output_min_constraints=output_max_constraints,
         output_max_constraints=output_min_constraints)
     return -bias, -heights
+  # Bias is the smallest output of an increasing function: scaling the heights
+  # cannot help if it is itself out of bounds.
+  if output_min_constraints != BoundConstraintsType.NONE:
+    bias = tf.maximum(bias, output_min)
   if output_max_constraints == BoundConstraintsType.NONE:
     return bias, heights
+  bias = tf.minimum(bias, output_max)
 
   delta = output_max - bias
   # For better stability use tf.where rather than the more standard approach:
@@ -700,6 +703,11 @@ def _squeeze_by_scaling(bias, heights, monotonicity, output_min, output_max,
                             tf.reduce_sum(heights, axis=0) / delta,
                             tf.ones_like(delta))
   heights = heights / tf.maximum(scaling_factor, 1.0)
+  # For small deltas heights stay unchanged only if they fit below output_max,
+  # otherwise there is no room left and the function has to be flat.
+  fits = tf.reduce_sum(heights, axis=0) <= tf.maximum(delta, 0.0)
+  heights = tf.where(
+      tf.logical_or(delta > 0.001, fits), heights, tf.zeros_like(heights))
   return bias, heights
 
 
